@@ -93,6 +93,14 @@ func (m *Monitor) Step(ln int, op, got string) *Hit {
 		m.sess = nil
 		m.metered = t[1] != "~"
 	case "set":
+		if got == "err reserved" {
+			// an explicitly refused write is not a write: nothing changes (only the reserved
+			// TOMBSTONE marker may be refused)
+			if t[2] != Tomb {
+				return hit("write-refused", "ok")
+			}
+			return nil
+		}
 		if got != "ok" {
 			if m.metered {
 				return nil
